@@ -21,12 +21,14 @@ EXPLANATION = (
     ".levels / .unique() / .categories / dropna(), which forgets nulls and multiplicities; (R3) parse_check_statistics "
     "maps every statistics key to the Check constructor of the same name; (R4) infer_dataframe_schema / "
     "infer_series_schema / _create_index forward dtype, checks, nullable (and name) from the statistics entry of the same "
-    "key into the Column / Index / SeriesSchema constructors, and coerce=True keeps inferred dtypes reachable. NOT "
+    "key into the Column / Index / SeriesSchema constructors, and coerce=True keeps inferred dtypes reachable; (R6) the "
+    "bound-consistency guard that serialisation runs (parse_checks) rejects the inclusive pair only for min > max, strictly "
+    "- tight bounds of constant data are equal. NOT "
     "decided: numeric tightness (float rounding of large integers), NaT/inf, mixed-object inference, survival through "
     "serialisation on data."
 )
 LEVEL_RULE = "one obligation per statistics key / constructor keyword / data view"
-FLOORS = {"R1": 6, "R2": 9, "R3": 2, "R4": 10, "R5": 8}
+FLOORS = {"R1": 6, "R2": 9, "R3": 2, "R4": 10, "R5": 8, "R6": 1}
 
 STATS = "pandera/schema_statistics/pandas.py"
 INFER = "pandera/schema_inference/pandas.py"
@@ -340,7 +342,39 @@ def r4_forwarding(ctx):
         ctx.ob("R4", f, f"{fname}: inferred schema coerces to the inferred dtypes", ok, "coerce=True" if ok else "coerce not set")
 
 
+def r6_equal_bounds_serialise(ctx):
+    """The inferred bounds are tight, so constant data yields `ge(v)` and `le(v)` with the same v: the consistency guard
+    of parse_checks (run by to_yaml / statistics) may reject the inclusive pair only when min > max, strictly."""
+    from ..cfg import cfg_of
+    m = ctx.ix.module(STATS)
+    f = m.functions.get("parse_checks")
+    if f is None:
+        raise AnalysisError("parse_checks missing")
+    ctx.touched(f)
+    cfg = cfg_of(f.node)
+    consts = {n.value for n in ast.walk(f.node) if isinstance(n, ast.Constant) and isinstance(n.value, str)}
+    inclusive_pair = {"greater_than_or_equal_to", "less_than_or_equal_to"} <= consts
+    n = 0
+    for s in function_stmts(f):
+        if not isinstance(s, ast.Raise):
+            continue
+        for t, pol in cfg.guards(cfg.node_of(s).id):
+            for c in ast.walk(t):
+                if isinstance(c, ast.Compare) and len(c.ops) == 1 and isinstance(c.ops[0], (ast.Gt, ast.GtE, ast.Lt, ast.LtE)):
+                    n += 1
+                    strict = isinstance(c.ops[0], (ast.Gt, ast.Lt)) if pol else isinstance(c.ops[0], (ast.GtE, ast.LtE))
+                    ok = strict or not inclusive_pair
+                    ctx.ob("R6", f, f"bounds are called incompatible under `{txt(c)}`", ok,
+                           "strict comparison: equal inclusive bounds (constant data) are consistent" if ok else
+                           f"`{txt(c)}` is not strict while the inclusive pair greater_than_or_equal_to / less_than_or_equal_to is among the "
+                           "checks it compares: a column with a single distinct value is inferred as ge(v) & le(v), and serialising that schema raises",
+                           f.loc(s))
+    if n == 0:
+        ctx.ob("R6", f, "no bound-consistency guard in parse_checks", True, "nothing can reject equal bounds")
+
+
 def run(ctx):
+    r6_equal_bounds_serialise(ctx)
     r1_bounds(ctx)
     r2_provenance(ctx)
     r3_parse(ctx)
